@@ -472,6 +472,16 @@ def build_jobs(ctx):
         else:
             jobs.append(job_of(rng, "kcore_" + kind, src, A, k_bounds(n, kind), p_plain=0.4))
             jobs.append(job_of(rng, "kcoreness_centrality_" + kind, src, A, p_plain=0.4))
+    # ---- mid-size random graphs (seed round 7), 14..40 nodes, density 0.05..0.6, every level k: the peeling
+    #      runs over many rounds there - a first wave of one or two nodes followed by a cascade - which graphs
+    #      on <= 10 nodes cannot show (no graph on <= 6 nodes needs more than two rounds at k >= 3)
+    rng4 = random.Random("%s/C15-mid" % ctx.seed)
+    for t in range(50 if ctx.quick else 600):
+        n = rng4.randint(14, 40)
+        kind = rng4.choice(["bu", "bu", "bd"])
+        A = inputs.rand_graph(rng4, n, rng4.choice([0.05, 0.1, 0.2, 0.3, 0.45, 0.6]), und=(kind == "bu"), wmax=1)
+        jobs.append(job_of(rng4, "kcore_" + kind, "random-mid", A, k_bounds(n, kind), p_plain=0.5))
+        jobs.append(job_of(rng4, "kcoreness_centrality_" + kind, "random-mid", A, p_plain=0.5))
     # ---- composites, 9..18 nodes: a high-degree / low-coreness part (star, caterpillar, double star)
     #      joined by a bridge or a short path to a low-degree / high-coreness part (clique, complete
     #      bipartite block, ring of cliques) - degree and coreness orders disagree, the deepest core
